@@ -53,6 +53,19 @@ Round 4 - the rest of the program units and of what a graph object is used for:
     same nodes and edges as that graph; procedures that are not shown are neither callers nor users;
   * second and third generated table: `ctorLinks` / `ctorClasses` (every node constructor run on stubs: which
     slots it reads, both directions stored) and `projectLists` (which lists are registered).
+
+Round 6 - what is written on the edges and nodes, and the root's cell of the table:
+  * correspondence in addition: `comp_types` / `comp_of` of every type node (dict order, label text) and the labels
+    of the dashed edges in the DOT source against `compLoop` / `compOfLoop` / `edgeLabel` (driver `c13.complabels`);
+    the label of every procedure node (node object and DOT source) against `procLabel` (driver `c13.proclabel`,
+    input: what `ProcNode.__init__` reads - `self.name`, the names of the scope and of the binding type); the
+    `(rowspan of the root's cell, number of <tr>)` of every graph shown as a table against `rootSpan` / `tableTrs`
+    (two more fields of `c13.all`, variant flag `+r` decided on the witness of C13-table-rootspan);
+  * two micro streams on stubs with the real constructors and graph classes: `micro_labels` (types with repeated,
+    self-referential, name-only, polymorphic components; the real "inherits" / "inherited by" graphs over them),
+    `micro_proclabels` (procedures and type-bound procedures with / without scope, type, naming binding);
+  * oracle in addition: node labels (name; scope shown exactly with `show_proc_parent`, and the declared one); the
+    root's cell of a table spans all its rows.
 """
 from __future__ import annotations
 
